@@ -11,6 +11,7 @@ OutputDecl = {alias, kind: instance|static, handler: none|wrap, fail_missing: bo
 Step = {t: in, i, a, b, usekw, beh, ret, name, hfail?, exc?}          beh: ret|raise|interrupt|nested|discard|
      | {t: out, i, a, kw: [[k, desc]], beh, ret, hfail?, exc?}              discard_raise|force
      | {t: discard} | {t: force} | {t: record_data, k, v} | {t: sleep, ms} | {t: threads, workers: [[Step]]}
+     | (in-steps) mutate_args: int   the wrapped function mutates its arguments in place
      | {t: mutate_last}   (in-place mutation of the value the previous call returned, how: int)
      | {t: nested_op, inner: ret|raise}   (calls another decorated operation of the same recorder, copes with refusal)
 """
@@ -147,6 +148,10 @@ def _body(W, kind, idx):
         s = W.cur()
         sid = s['sid'] if s else None
         W.journal.append(('body', kind, idx, W.world, sid))
+        if s and s.get('mutate_args') is not None:
+            # the wrapped function changes its arguments in place (pops the job it returns off the list it is given)
+            for x in list(args) + list(kwargs.values()):
+                V.mutate_in_place(x, s['mutate_args'])
         rec = W.recorder
         beh = s['beh'] if s else 'ret'
         if s and s.get('sync') and W.world == 'LIVE' and getattr(W, 'barrier', None) is not None and \
